@@ -82,10 +82,19 @@ def variants(rng, f, exhaustive_rules=True):
         line = rng.choice(c)
         line.insert(rng.randrange(len(line) + 1), gen.clone(rng.choice(line)))
         yield "duplicate-alternative", g, ("same",)
-    # 4. permute rules
+    # 4. permute rules (definitions that share a name keep their relative order: which alternative applies first is by construction order dependent)
     n = len(f["rules"])
+    names = [r["name"] for r in f["rules"]]
+    dup_names = {x for x in names if names.count(x) > 1}
+
+    def keeps_alternative_order(perm):
+        for x in dup_names:
+            idx = [perm.index(i) for i, nm in enumerate(names) if nm == x]
+            if idx != sorted(idx):
+                return False
+        return True
     if n > 1:
-        perms = list(itertools.permutations(range(n)))
+        perms = [p_ for p_ in itertools.permutations(range(n)) if keeps_alternative_order(p_)] if n <= 6 else []
         rng.shuffle(perms)
         for perm in perms[:6]:
             g = gen.clone(f)
@@ -93,13 +102,15 @@ def variants(rng, f, exhaustive_rules=True):
             yield "permute-rules", g, ("same",)
     # 5. copy of a rule under a fresh name (at a random position)
     plain = [i for i, r in enumerate(f["rules"]) if not r.get("params")]
-    if plain:
+    single = [i for i in plain if f["rules"][i]["name"] not in dup_names]
+    if single:
         g = gen.clone(f)
-        ri = rng.choice(plain)
+        ri = rng.choice(single)
         cp = gen.clone(g["rules"][ri])
         cp["name"] = "zcopy"
         g["rules"].insert(rng.randrange(len(g["rules"]) + 1), cp)
         yield "copy-rule", g, ("copy", "zcopy", f["rules"][ri]["name"])
+    if plain:
         # 6. a new first rule that references an existing rule early (forces early memoisation)
         g = gen.clone(f)
         tgt = f["rules"][rng.choice(plain)]["name"]
@@ -121,7 +132,12 @@ def compare(base, var, rel):
         # file status may legitimately stay equal: a copy adds a rule with the same status
     elif rel[0] == "early":
         new, tgt = rel[1], rel[2]
-        want = "PASS" if base.get(tgt) == "PASS" else "FAIL"
+        defs = set((base.get(tgt) or "").split("+"))
+        if "PASS" in defs and "FAIL" in defs:
+            # alternatives of one name with both PASS and FAIL: which one is "the" status depends on definition order, not asserted
+            want = v.get(new)
+        else:
+            want = "PASS" if "PASS" in defs else "FAIL"
         if v.get(new) != want:
             return "reference rule %s -> %s(%s) is %s" % (new, tgt, base.get(tgt), v.get(new))
         v.pop(new, None)
@@ -152,6 +168,23 @@ def shard(ctx):
     for t in range(nbase):
         doc = gen.gen_doc(rng)
         f = gen.gen_file(rng, doc, o)
+        if rng.random() < 0.3:
+            # alternatives: a second definition of an existing rule name, both guarded by `when` (documented idiom); references to the name
+            # must see the same status however often and wherever they occur
+            plain = [i for i, r in enumerate(f["rules"]) if not r.get("params")]
+            ri = rng.choice(plain)
+            env = {"refs": [], "vars": [], "prules": [], "allow_ref": False}
+            alt = gen.clone(f["rules"][ri])
+            alt["when"] = gen.gen_cond(rng, doc, o, 0, env)
+            if not f["rules"][ri].get("when") or rng.random() < 0.5:
+                f["rules"][ri]["when"] = gen.gen_cond(rng, doc, o, 0, env)
+            if rng.random() < 0.5 and len(alt["body"]) > 1:
+                alt["body"] = alt["body"][:-1]
+            f["rules"].insert(ri + (0 if rng.random() < 0.5 else 1), alt)
+            users = [r for r in f["rules"] if r["name"] != alt["name"] and not r.get("params")]
+            if users and rng.random() < 0.7:
+                rng.choice(users)["body"].append([{"t": "ref", "neg": rng.random() < 0.3, "name": alt["name"], "msg": None}])
+            ctx.res.counts["bases_with_alternative_definitions"] += 1
         docs = [json.dumps(doc)]
         for _ in range(1 if ctx.quick else 2):
             docs.append(json.dumps(gen.gen_doc(rng)))
